@@ -1147,10 +1147,10 @@ pub(crate) fn h_ifdata_empty_sequence() {
 /// uninterpreted IF_DATA (no A2ML definition): arbitrary lexeme soups inside the block, including comments, an embedded
 /// `/begin A2ML` section whose raw text is a single quote, unbalanced /begin and /end and the end of input.
 /// Loading must return (Ok or Err): no panic, no hang.
-fn ifdata_soup(n: usize) {
+fn ifdata_soup_text(lex: &[u32], closed: bool) -> String {
     let mut t = String::from("ASAP2_VERSION 1 71\n/begin PROJECT p \"\"\n/begin MODULE m \"\"\n/begin IF_DATA X ");
-    for _ in 0..n {
-        match vrt_choice(10) {
+    for l in lex {
+        match *l {
             0 => t.push_str("/begin B "),
             1 => t.push_str("/end B "),
             2 => t.push_str("id "),
@@ -1163,18 +1163,39 @@ fn ifdata_soup(n: usize) {
             _ => t.push_str("\"\" "),
         }
     }
-    let closed = vrt_choice(2) == 0;
     if closed {
         t.push_str("/end IF_DATA\n/end MODULE\n/end PROJECT");
     }
+    t
+}
+
+fn ifdata_soup(n: usize) {
+    let mut lex = Vec::new();
+    for _ in 0..n { lex.push(vrt_choice(10)); }
+    let closed = vrt_choice(2) == 0;
     let strict = vrt_choice(2) == 1;
+    let t = ifdata_soup_text(&lex, closed);
     let r = load_from_string(&t, None, strict);
     if let Ok((file, _)) = &r {
-        // whatever was accepted can be written and loaded again
+        // C01: whatever was accepted can be written and loaded again.
+        // Known finding D20 (while listed): a line comment followed by tokens that the non-strict loader drops from
+        // the line of the closing /end is written with the /end on the comment's line.
+        let mut line_comment_not_last = false;
+        for i in 0..lex.len() { if lex[i] == 6 && i + 1 < lex.len() { line_comment_not_last = true; } }
         let out = file.write_to_string();
-        vrt_check(load_from_string(&out, None, false).is_ok(), "C03 text written from an accepted uninterpreted IF_DATA loads again");
+        let reload_ok = load_from_string(&out, None, false).is_ok();
+        if !(vrt_known("D20") && line_comment_not_last) {
+            vrt_check(reload_ok, "C01 text written from an accepted uninterpreted IF_DATA loads again");
+        }
     }
     vrt_observe_bool(r.is_ok());
+}
+/// twin of known finding D20: exactly the recorded input; must keep failing while the finding is listed
+pub(crate) fn h_ifdata_soup_known_d20() {
+    let t = ifdata_soup_text(&[1, 6, 2], true);
+    let (file, _) = load_from_string(&t, None, false).unwrap();
+    let out = file.write_to_string();
+    vrt_check(load_from_string(&out, None, false).is_ok(), "C01 D20 text written after a line comment followed by dropped tokens loads again");
 }
 pub(crate) fn h_ifdata_soup_1() { ifdata_soup(1); }
 pub(crate) fn h_ifdata_soup_2() { ifdata_soup(2); }
